@@ -10,6 +10,10 @@ use crate::{
     util::*,
 };
 
+/// When set, `call_rpc!` lets ANOTHER request's reply future take the reply under test off the transport and park it
+/// for its owner before the owner looks: every reply type must survive being handed over.
+pub static PARKED: std::sync::atomic::AtomicBool = std::sync::atomic::AtomicBool::new(false);
+
 pub struct WSess {
     pub session: Session<MemTransport>,
     pub ctl: MemCtl,
@@ -95,6 +99,21 @@ macro_rules! call_rpc {
                 let reply: Option<String> = $reply(id);
                 if let Some(reply) = reply {
                     $ws.ctl.push(reply);
+                }
+                if $crate::wsess::PARKED.load(std::sync::atomic::Ordering::Relaxed) {
+                    let mut o2: $crate::util::LBoxFut<'_, _> =
+                        Box::pin($ws.session.rpc::<netconf::message::rpc::operation::Get, _>(|b| netconf::message::rpc::operation::Builder::finish(b.filter(None))));
+                    let f2 = match $crate::wsess::drive(&mut o2, 8) {
+                        $crate::wsess::Driven::Ready(Ok(f)) => Some(f),
+                        _ => None,
+                    };
+                    drop(o2);
+                    if let Some(f2) = f2 {
+                        let id2 = $ws.last_id();
+                        $ws.ctl.push(format!("<rpc-reply message-id=\"{id2}\" xmlns=\"{}\"><data/></rpc-reply>{}", $crate::util::BASE_NS, $crate::util::EOM));
+                        let mut b2: $crate::util::LBoxFut<'_, _> = Box::pin(f2);
+                        let _ = $crate::wsess::drive(&mut b2, 16);
+                    }
                 }
                 let mut inner: $crate::util::LBoxFut<'_, _> = Box::pin(fut);
                 match $crate::wsess::drive(&mut inner, 16) {
